@@ -136,8 +136,8 @@ def plain(x):
     return x
 
 
-def main(pid="C05"):
-    rep = evidence.Report(pid, "model_checking")
+def main(pid="C05", rep=None, finish=True):
+    rep = rep or evidence.Report(pid, "model_checking")
     thorough = rep.tier == "thorough"
     rnd = random.Random(rep.seed * 6007 + 5)
     root = build_capsule()
@@ -233,7 +233,9 @@ def main(pid="C05"):
                 "the real protocol + chain + static handler; distinct = distinct (rules, tokens, trailing, cert, rules-variant)")
         rep.set("exhaustive", True)
         rep.assume("capsule without symbolic links (links are C02's subject); file identity by sentinel content")
-        sys.exit(rep.finish())
+        if finish:
+            sys.exit(rep.finish())
+        return
     except tlc.TLCError as e:
         evidence.machinery_failure(pid, e)
     finally:
